@@ -1029,6 +1029,46 @@ def d51():
         ctx.SetResultTypes(functionType.Results)
 """)])
 
+@fix('D52', "fix: the two branches of an if are separate scopes\n\nBoth passes that track names opened one scope per if statement and visited the\ncondition and both branches in it, so an unbraced declaration in the then\nbranch was visible in the else branch: `if (c) int t = 1; else int u = t;`\npassed the front end and failed in the VM with KeyError when the else branch\nran (t was never declared), and `if (c) int x; else int x;` was rejected\nalthough the branches are disjoint.")
+def d52():
+    patch('nsl/passes/ComputeTypes.py', [(
+"""    def v_IfStatement(self, stmt, ctx):
+        ctx.append(types.Scope(ctx[-1]))
+        stmt.AcceptVisitor(self, ctx)
+        ctx.pop()
+""",
+"""    def v_IfStatement(self, stmt, ctx):
+        # The condition belongs to the enclosing scope, each branch is a
+        # scope of its own
+        self.v_Visit(stmt.GetCondition(), ctx)
+        for branch in (stmt.GetTruePath(), stmt.GetElsePath()):
+            if branch is not None:
+                ctx.append(types.Scope(ctx[-1]))
+                self.v_Visit(branch, ctx)
+                ctx.pop()
+""")])
+    patch('nsl/passes/ValidateVariableNames.py', [(
+"""    def v_IfStatement(self, ifStatement, ctx=None):
+        ctx = self.Context(ctx)
+
+        with Errors.CompileExceptionToErrorHandler(
+            self.errorHandler, self.__onError
+        ):
+            ifStatement.AcceptVisitor(self, ctx)
+""",
+"""    def v_IfStatement(self, ifStatement, ctx=None):
+        with Errors.CompileExceptionToErrorHandler(
+            self.errorHandler, self.__onError
+        ):
+            # Each branch is a scope of its own
+            for branch in (
+                ifStatement.GetTruePath(),
+                ifStatement.GetElsePath(),
+            ):
+                if branch is not None:
+                    self.v_Visit(branch, self.Context(ctx))
+""")])
+
 @fix('D21', "fix: %, && and || on vectors and matrices are lowered and executed component-wise\n\nTyping accepts `a % b`, `a && b`, `a || b` for two vectors or two matrices of the\nsame shape, but FromOperation had no vector opcode for them (VECTOR_MOD was declared\nbut unused), so lowering died with KeyError.")
 def d21():
     patch('nsl/LinearIR.py', [
